@@ -2,7 +2,7 @@
    Only statements, each closed by [exact], with Print Assumptions. *)
 From Coq Require Import NArith List.
 Import ListNotations.
-From PM Require Import Model.Varint Model.Directory Model.Iterate Proofs.Iterate.
+From PM Require Import Model.Varint Model.Directory Model.Iterate Model.FindTile Proofs.Iterate Proofs.WalkSorted.
 Open Scope N_scope.
 
 (* For every fetch function (any tree shape, any set of failing directories), any leaf base and any
@@ -22,6 +22,16 @@ Theorem C17_pinned_refuted :
   exists fetch lb o l, flatten fetch lb 3 o l = None /\ snd (iterate_pinned fetch lb 3 o l) = true.
 Proof. exact iterate_pinned_refuted. Qed.
 
+(* "exactly once, in ascending tile-ID order": on every well-formed archive (wftree of Model/FindTile.v: any number d of
+   leaf levels) the enumeration completes and what it hands to the callback is a chain - ids ascending from 0, every run
+   non-empty and ending at or before the next entry's id, so no id is addressed twice *)
+Theorem C17_ascending_once : forall fetch lb d o l, wftree fetch lb d o l ->
+  exists v, iterate fetch lb (S d) o l = (v, true) /\ flatten fetch lb (S d) o l = Some v /\ chain 0 v.
+Proof. exact wftree_iterate_chain. Qed.
+Theorem C17_chain_means_sorted : forall fl lo i j a b, chain lo fl -> (i < j)%nat -> nth_error fl i = Some a -> nth_error fl j = Some b ->
+  0 < run a /\ tid a + run a <= tid b.
+Proof. exact chain_sorted. Qed.
+
 (* non-vacuity: a two-level tree with two leaves, all fetched; and the same tree with the second leaf failing *)
 Definition ex_fetch (fail2:bool) (o l:N) : option (list entry) :=
   if o =? 127 then Some [mkE 1 0 5 0; mkE 10 5 7 0]
@@ -34,6 +44,16 @@ Proof. reflexivity. Qed.
 Example C17_nonvacuous_fail : flatten (ex_fetch true) 1000 3 127 9 = None.
 Proof. reflexivity. Qed.
 
+Example C17_nonvacuous_wf : wftree (ex_fetch false) 1000 1 127 9.
+Proof.
+  exists [mkE 1 0 5 0; mkE 10 5 7 0]. split; [reflexivity|].
+  cbn. repeat split; try (vm_compute; congruence).
+  - exists [mkE 1 0 10 2; mkE 4 10 10 1]. split; [reflexivity|]. cbn. repeat split; vm_compute; congruence.
+  - exists [mkE 10 20 10 1; mkE 12 30 10 3]. split; [reflexivity|]. cbn. repeat split; vm_compute; congruence.
+Qed.
+
 Print Assumptions C17_complete.
 Print Assumptions C17_fails_loudly.
 Print Assumptions C17_pinned_refuted.
+Print Assumptions C17_ascending_once.
+Print Assumptions C17_chain_means_sorted.
